@@ -1127,6 +1127,19 @@ func (g *gen) newArg(kind string) Arg {
 		if kind == "s:hex" {
 			return Arg{K: "s:hex", S: hex.EncodeToString(b)}
 		}
+		if r.Chance(0.05) {
+			// text where binary is expected: the bytes are the hex text of the
+			// encoding (what a driver on a text protocol hands over), its
+			// upper-case form, or the geometry's WKT
+			switch r.Intn(3) {
+			case 0:
+				b = []byte(hex.EncodeToString(b))
+			case 1:
+				b = []byte(strings.ToUpper(hex.EncodeToString(b)))
+			default:
+				b = []byte(m.WKT())
+			}
+		}
 		return Arg{K: "b", Hex: hex.EncodeToString(b), Cap: []int{0, 0, 5, 16}[r.Intn(4)]}
 	case kind == "s:wkt":
 		m := g.geomOfType(mgeom.AllTypes[r.Intn(len(mgeom.AllTypes))])
